@@ -125,6 +125,40 @@ def run(repo, rep):
             cases.append((ast.unparse(te.orelse), tuple(e.conds) + (('+' + neg) if neg else ('-' + t_),)))
         else:
             cases.append((st_term, tuple(e.conds)))
+    # by value: the start id at an empty list and at lists holding ids, for whatever expression computes it
+    from ..arith import CannotEvaluate, eval_value
+    D_ = 'self.context_def_list'
+    by_value = True
+    value_probs = []
+    for sample in ({}, {1: 'a'}, {1: 'a', 3: 'b'}, {5: 'a', 9: 'b', 7: 'c'}):
+        want = max(sample) + 2 if sample else 1
+        got = set()
+        for st_term, conds_ in cases:
+            try:
+                applies = True
+                for cn in conds_:
+                    if cn[:1] in '+-' and D_ in cn:
+                        if bool(eval_value(ast.parse(cn[1:], mode='eval').body, {D_: sample})) != (cn[0] == '+'):
+                            applies = False
+                            break
+                if applies:
+                    got.add(eval_value(ast.parse(st_term, mode='eval').body, {D_: sample}))
+            except (CannotEvaluate, SyntaxError):
+                by_value = False
+                break
+            except Exception as exc:
+                got.add('raises %s' % type(exc).__name__)
+        if not by_value:
+            break
+        if got != {want}:
+            value_probs.append('with ids %s in the list the next batch starts at %s, expected %d'
+                               % (sorted(sample) or 'none', ' / '.join(str(x) for x in sorted(got, key=str)) or 'nothing', want))
+    if by_value and cases:
+        if value_probs:
+            probs.append('; '.join(value_probs))
+        cases = []
+        ok_start = True
+        seen_start = {'(by value)', '(by value) '}
     for st_term, conds_ in cases:
         e = type('E', (), {'conds': conds_})
         seen_start.add(st_term)
